@@ -1118,6 +1118,16 @@ def render(g):
     L.append("same queue, a blocking `Queue.get`), with the locks held: (what and where, locks held). -/")
     L.append("def queueWaits : List (String × String) := [" + ", ".join(f'("{w}", "{h}")' for w, h, _ in g['unguarded']) + "]")
     L.append("")
+    L.append("/-- a thread of one of the property's OWN roles (engine, feeder, dist_main, dist_incoming, dist_outgoing, worker) waits")
+    L.append("for another thread to END (`Thread.join`, `Pool.join`) while holding a lock: (what and where with the locks held, roles).")
+    L.append("The thread waited for may need that lock, or a lock held by a third thread that needs it, before it can end.  (The")
+    L.append("`controller` role -- an application thread calling close() / join() -- is outside C08's statement; its joins are listed")
+    L.append("in the comment above.) -/")
+    joinw = [(a, roles) for a, roles in g['blocking'] if '.join()' in a and 'holding {}' not in a
+             and any(r != 'controller' for r in roles)]
+    L.append("def joinWaits : List (String × String) := [" + ", ".join(
+        '("%s", "%s")' % (a.replace('"', "'"), ' '.join(r for r in roles if r != 'controller')) for a, roles in joinw) + "]")
+    L.append("")
     L.append("/-- fields of lock-owning classes that are written after construction and, on some path from a thread role's entry")
     L.append("point, read or written WITHOUT (one of) the owning object's own lock(s) held: (class, field, r/w, where).  The")
     L.append("sequential models treat every public method as one atomic step; that is justified when this table is empty. -/")
